@@ -203,6 +203,20 @@ class C12(TracedProp):
                   "stores the result of its own task.")
 
 
+def _c12_tweak(self, case, r, tier):
+    if r.random() < 0.12:
+        # a sensor riding on a large constant offset (absolute pressure, epoch seconds): the statistics must still be those
+        # of the windows (a one-pass E[xx']-E[x]E[x]' loses eps*offset^2)
+        n = case["data"]["N"]
+        shift = [0.0] * n
+        shift[r.randrange(n)] = float(r.choice([1e4, 1e5, 1e6, -1e6, 1e7]))
+        case["data"]["shift"] = shift
+    return case
+
+
+C12.tweak = _c12_tweak
+
+
 class C16(TracedProp):
     id = "C16"
     profile = dict(extreme_scale_p=0.3, scale_exp_range=(-4, 4), mixed_units_p=0.08, beta_values=(0, 0, 0.5, 2, 5, 20, 200, 1e5),
